@@ -250,4 +250,94 @@ theorem sw_window (U : Unpack Msg) : ∀ (fuel : Nat) (buf : Bytes) (acc : List 
                     rw [← hoff']; exact hU
                 · exact .inr hx
 
+
+/-! ### handlers that disconnect (repair C09-2) -/
+
+/-- with handlers that never disconnect, the loop with the `disconnected` test is the plain loop -/
+theorem ctlLoopD_never (U : Unpack Msg) (k : Nat) : ∀ (fuel : Nat) (buf : Bytes) (off : Nat) (acc : List Msg),
+    ctlLoopD U (fun _ => false) k fuel false buf off acc = ctlLoop U k fuel buf off acc := by
+  intro fuel
+  induction fuel with
+  | zero => intro buf off acc; rfl
+  | succ f ih =>
+    intro buf off acc
+    rw [ctlLoopD, ctlLoop]
+    simp only [Bool.false_eq_true, if_false]
+    by_cases c1 : buf.length - off < 8
+    · simp only [if_pos c1]
+    · by_cases c2 : byteAt buf off ≠ 1 ∧ byteAt buf (off + 1) ≠ 0
+      · simp only [if_neg c1, if_pos c2]
+      · by_cases c3 : declLen buf off < k
+        · simp only [if_neg c1, if_neg c2, if_pos c3]
+        · by_cases c4 : buf.length - off < declLen buf off
+          · simp only [if_neg c1, if_neg c2, if_neg c3, if_pos c4]
+          · simp only [if_neg c1, if_neg c2, if_neg c3, if_neg c4]
+            cases hU : U (byteAt buf (off + 1)) buf off with
+            | raise => rfl
+            | none => rfl
+            | ok p =>
+              obtain ⟨off', m⟩ := p
+              simp only []
+              by_cases c5 : off' - off ≠ declLen buf off ∨ off' < off
+              · simp only [if_pos c5]
+              · simp only [if_neg c5]; exact ih buf off' (acc ++ [m])
+
+/-- once the connection is marked disconnected the loop delivers nothing more and never reports it alive with
+    unprocessed complete input: it stops with `closed` as soon as 8 bytes are available -/
+theorem ctlLoopD_disc (U : Unpack Msg) (D : Msg → Bool) (k fuel : Nat) (buf : Bytes) (off : Nat) (acc : List Msg) :
+    (ctlLoopD U D k fuel true buf off acc).2.1 = acc ∧
+    (8 ≤ buf.length - off → 0 < fuel → (ctlLoopD U D k fuel true buf off acc).2.2 = .closed) := by
+  cases fuel with
+  | zero => exact ⟨rfl, fun _ h => absurd h (Nat.lt_irrefl 0)⟩
+  | succ f =>
+    rw [ctlLoopD]
+    by_cases c1 : buf.length - off < 8
+    · simp only [if_pos c1]; exact ⟨trivial, fun h => by omega⟩
+    · simp only [if_neg c1, if_true]; exact ⟨trivial, fun _ _ => trivial⟩
+
+/-- every message delivered by one run of the loop, except possibly the last one, has a handler that did not
+    disconnect: nothing is dispatched after a disconnecting handler -/
+theorem ctlLoopD_last (U : Unpack Msg) (D : Msg → Bool) (k : Nat) : ∀ (fuel : Nat) (buf : Bytes) (off : Nat) (acc : List Msg),
+    ∃ new, (ctlLoopD U D k fuel false buf off acc).2.1 = acc ++ new ∧ ∀ m ∈ new.dropLast, D m = false := by
+  intro fuel
+  induction fuel with
+  | zero => intro buf off acc; exact ⟨[], by simp [ctlLoopD], by simp⟩
+  | succ f ih =>
+    intro buf off acc
+    rw [ctlLoopD]
+    simp only [Bool.false_eq_true, if_false]
+    by_cases c1 : buf.length - off < 8
+    · simp only [if_pos c1]; exact ⟨[], by simp, by simp⟩
+    · by_cases c2 : byteAt buf off ≠ 1 ∧ byteAt buf (off + 1) ≠ 0
+      · simp only [if_neg c1, if_pos c2]; exact ⟨[], by simp, by simp⟩
+      · by_cases c3 : declLen buf off < k
+        · simp only [if_neg c1, if_neg c2, if_pos c3]; exact ⟨[], by simp, by simp⟩
+        · by_cases c4 : buf.length - off < declLen buf off
+          · simp only [if_neg c1, if_neg c2, if_neg c3, if_pos c4]; exact ⟨[], by simp, by simp⟩
+          · simp only [if_neg c1, if_neg c2, if_neg c3, if_neg c4]
+            cases hU : U (byteAt buf (off + 1)) buf off with
+            | raise => exact ⟨[], by simp, by simp⟩
+            | none => exact ⟨[], by simp, by simp⟩
+            | ok p =>
+              obtain ⟨off', m⟩ := p
+              simp only []
+              by_cases c5 : off' - off ≠ declLen buf off ∨ off' < off
+              · simp only [if_pos c5]; exact ⟨[], by simp, by simp⟩
+              · simp only [if_neg c5]
+                cases hd : D m with
+                | true =>
+                  have := (ctlLoopD_disc U D k f buf off' (acc ++ [m])).1
+                  exact ⟨[m], by rw [this], by simp⟩
+                | false =>
+                  obtain ⟨new, h1, h2⟩ := ih buf off' (acc ++ [m])
+                  refine ⟨m :: new, by rw [h1]; simp, ?_⟩
+                  intro x hx
+                  cases new with
+                  | nil => simp at hx
+                  | cons y ys =>
+                    simp only [List.dropLast_cons_cons, List.mem_cons] at hx
+                    rcases hx with rfl | hx
+                    · exact hd
+                    · exact h2 x hx
+
 end Pox.Framing
